@@ -299,6 +299,7 @@ class Interp:
         saved_log = c.write_log
         c.write_log = []
         saved_fresh = len(c.live_refs)
+        c.pyghost[('ghost_head', lname)] = (dict(c.ghost), set(getattr(spec, 'ghost_modifies', []) or []))
         try:
             try:
                 self.exec_block(st.body)
@@ -324,6 +325,12 @@ class Interp:
 
     def check_loop_frame(self, lname, mods, saved_log, saved_fresh):
         c = self.c
+        head, allowed = c.pyghost.get(('ghost_head', lname), ({}, set()))
+        for gname, v0 in head.items():
+            if gname in allowed or gname not in c.ghost:
+                continue
+            if not c.ghost[gname].eq(v0):
+                c.prove('%s:frame/ghost-%s' % (lname, gname), c.ghost[gname] == v0, assume_after=False)
         log = c.write_log
         c.write_log = saved_log
         if saved_log is not None:
